@@ -2,6 +2,7 @@
 package c09
 
 import (
+	"strings"
 	"context"
 
 	"encoding/json"
@@ -93,6 +94,39 @@ func TestC09Aggregate(t *testing.T) {
 		for vi := 0; vi < nVals; vi++ {
 			seed := int64(rapid.IntRange(1, 1<<30).Draw(rt, "seed"))
 			v := valgen.Signed(t, k, seed)
+			// The signing domain depends on the fork that is active in the epoch the object belongs to:
+			// slots and epochs right at a fork activation (last slot before, first slot of) are where an
+			// off-by-one in that epoch shows; the fuzzer's random slots practically never land there.
+			if rapid.IntRange(0, 2).Draw(rt, "forkBoundary") == 0 && len(bn.Forks) > 1 {
+				fork := bn.Forks[rapid.IntRange(1, len(bn.Forks)-1).Draw(rt, "boundaryFork")]
+				ptr := valgen.PtrTo(v)
+				set := 0
+				for _, l := range valgen.Uint64Leaves(ptr) {
+					before := rapid.Bool().Draw(rt, "beforeFork")
+					switch {
+					case strings.HasSuffix(l.Path, ".Slot"):
+						x := uint64(fork.Epoch) * bn.SPE
+						if before {
+							x--
+						}
+						l.Set(x)
+						set++
+					case strings.HasSuffix(l.Path, ".Epoch"):
+						x := uint64(fork.Epoch)
+						if before && x > 0 {
+							x--
+						}
+						l.Set(x)
+						set++
+					}
+				}
+				if set > 0 {
+					if nv, ok := valgen.Deref(ptr).(core.SignedData); ok {
+						v = nv
+						vstat.Count("value_at_fork_boundary", 1)
+					}
+				}
+			}
 			if p, ok := v.(core.VersionedSignedProposal); ok && (p.Version == eth2spec.DataVersionPhase0 || p.Version == eth2spec.DataVersionAltair) {
 				rt.Skip("pre-merge proposals are not supported by the signing flow (go-eth2-client Slot() refuses them)")
 			}
